@@ -207,6 +207,9 @@ func (fr *Frame) call(st *State, in ssa.Instruction, c *ssa.CallCommon, v ssa.Va
 		return fr.havocCall(st, nil, sig, args, "dynamic")
 	}
 	name := fn.String()
+	if res, ok := fr.iterateCall(st, fn, c, args); ok {
+		return res
+	}
 	if res, ok := fr.nativeCall(st, fn, c, args, v); ok {
 		return res
 	}
@@ -563,7 +566,7 @@ func (fr *Frame) builtin(st *State, b *ssa.Builtin, c *ssa.CallCommon, v ssa.Val
 			if a.Sort == SSlice {
 				return TV{app("s_"+b.Name(), a.S), SInt, it}
 			}
-			return TV{app("strlen", a.S), SInt, it}
+			return TV{ite(eq(a.S, "0"), "0", app("klen", a.S)), SInt, it}
 		case *types.Basic:
 			return TV{app("strlen", a.S), SInt, it}
 		case *types.Map:
@@ -1102,4 +1105,91 @@ func (fr *Frame) checkGuard(st *State, a *Addr, what string) {
 		fresh := app(">=", a.base, fr.entry.frontier)
 		r.oblige(st, "guarded-by", g.Type+"."+g.Field+"."+what, g.Type+"."+g.Field+" is accessed only with "+g.Mutex+" held", or(fresh, not(eq(app("select", h, ref), "0"))))
 	}
+}
+
+// iterateCall: the iteration schema for library functions that call a function argument repeatedly
+// (btree Ascend*/Descend*, sync.Map.Range, ...): "for * { if !f(item*) { break } }". Driven by a site clause
+// `at call(X) iterate INV given G`.
+func (fr *Frame) iterateCall(st *State, fn *ssa.Function, c *ssa.CallCommon, args []Val) (Val, bool) {
+	if !fr.top || fr.spec == nil {
+		return nil, false
+	}
+	name := calleeName(c)
+	var site *SiteSpec
+	for _, ss := range fr.spec.Sites {
+		if ss.Kind == "iter" && ss.Callee == name {
+			site = ss
+		}
+	}
+	if site == nil {
+		return nil, false
+	}
+	site.matched++
+	r := fr.run
+	// the callback: last argument that is a closure with known code
+	var clo *Closure
+	for _, a := range args {
+		if cl, ok := a.(*Closure); ok {
+			clo = cl
+		}
+	}
+	if clo == nil {
+		r.eng.bindError(fr.spec, site.Clause, fmt.Errorf("no callback with known code at call(%s)", name))
+		return nil, true
+	}
+	label := labelOr(site.Clause, 0)
+	eval := func(s *State, cl *Clause, extra map[string]Val) (string, error) {
+		cx := fr.newCtx(s, fr.curRec, true)
+		cx.binds = map[string]Val{}
+		for k, v := range fr.params {
+			cx.binds[k] = v
+		}
+		for k, v := range extra {
+			cx.binds[k] = v
+		}
+		return cx.boolExpr(cl.Expr)
+	}
+	// 1. invariant holds before the iteration
+	if f, err := eval(st, site.Clause, nil); err == nil {
+		r.oblige(st, "iterate-init", name+"."+label, site.Clause.Text, f)
+	} else {
+		r.eng.bindError(fr.spec, site.Clause, err)
+		return nil, true
+	}
+	// 2. forget everything the callback may write, keep the invariant
+	mods := r.eng.modsetFunc(clo.fn, map[*ssa.Function]bool{})
+	for _, h := range sortedKeys(mods) {
+		r.heapHavoc(st, h)
+	}
+	nf := r.declare("frontier", SInt)
+	r.assumeGlobal(app(">=", nf, st.frontier))
+	st.frontier = nf
+	if f, err := eval(st, site.Clause, nil); err == nil {
+		r.assume(st, f)
+	}
+	// 3. one arbitrary callback invocation preserves the invariant
+	body := st.clone()
+	var cargs []Val
+	extra := map[string]Val{}
+	for i, p := range clo.fn.Params {
+		v := r.freshOf(body, "item_"+p.Name(), p.Type())
+		cargs = append(cargs, v)
+		extra[fmt.Sprintf("item%d", i)] = v
+	}
+	if site.Given != nil {
+		if g, err := eval(body, site.Given, extra); err == nil {
+			r.assume(body, g)
+			r.assumed["callback arguments of "+name+": "+site.Given.Text] = true
+		} else {
+			r.eng.bindError(fr.spec, site.Given, err)
+		}
+	}
+	fr.inlineCall(body, clo.fn, clo, cargs)
+	if !body.dead {
+		if f, err := eval(body, site.Clause, nil); err == nil {
+			r.oblige(body, "iterate-pres", name+"."+label, site.Clause.Text, f)
+		}
+	}
+	r.assumed["iteration schema for "+fn.String()+" (calls its function argument any number of times, nothing else)"] = true
+	return fr.freshResults(st, c.Signature(), "r_"+name), true
 }
